@@ -7,6 +7,9 @@ import builtins
 import hashlib
 import os
 import types
+from fractions import Fraction
+
+import z3
 
 from . import core
 from .core import Sym, SInt, SReal, SBool
@@ -69,6 +72,60 @@ def _isinstance(x, t):
     return builtins.isinstance(x, t)
 
 
+class SymMath:
+    """stands in for the `math` module inside loaded modules: real math on concrete arguments, exact algebra on
+    symbolic / log-domain ones; anything that would need a transcendental of a symbolic value is Inconclusive"""
+    import math as _m
+    inf, nan, pi, e = _m.inf, _m.nan, _m.pi, _m.e
+
+    def __getattr__(self, n):
+        import math
+        f = getattr(math, n)
+
+        def g(*a):
+            if any(isinstance(x, (Sym, core.SLog)) for x in a):
+                raise core.Inconclusive("math.%s of a symbolic value is not modelled" % n)
+            return f(*a)
+        return g
+
+    def log2(self, x):
+        import math
+        if isinstance(x, core.SLog):
+            raise core.Inconclusive("log2 of a log-domain value")
+        if isinstance(x, Sym):
+            return core.SLog(x)                      # enters the log domain: log2(r) is represented by r
+        f = Fraction(x)
+        if f > 0 and (f.numerator == 1 or f.denominator == 1):
+            n, d = f.numerator, f.denominator
+            if n & (n - 1) == 0 and d & (d - 1) == 0:
+                return core.SLog(f)                  # exact power of two (e.g. log2(0.25)): keep it exact
+        return math.log2(x)
+
+    def pow(self, b, e):
+        import math
+        if isinstance(e, core.SLog):
+            if b != 2:
+                raise core.Inconclusive("pow with a base other than 2 on a log-domain value")
+            return e.p                               # leaves the log domain
+        if isinstance(b, Sym) or isinstance(e, Sym):
+            raise core.Inconclusive("math.pow of symbolic values")
+        return math.pow(b, e)
+
+    def floor(self, x):
+        import math
+        if isinstance(x, Sym):
+            z = core.zn(x)
+            return x if z3.is_int(z) else core.lift(z3.ToInt(z))
+        return math.floor(x)
+
+    def ceil(self, x):
+        import math
+        if isinstance(x, Sym):
+            z = core.zn(x)
+            return x if z3.is_int(z) else core.lift(-z3.ToInt(-z))
+        return math.ceil(x)
+
+
 class _Stub(types.ModuleType):
     def __getattr__(self, n):
         if n.startswith("__"):
@@ -129,7 +186,9 @@ class Loader:
                     m = getattr(m, p)
                 return m
             return self.shims[top]
-        if top in ("itertools", "math", "time", "warnings", "inspect", "typing", "collections", "functools", "os", "sys", "re", "gzip", "io"):
+        if top == "math":
+            return SymMath()
+        if top in ("itertools", "time", "warnings", "inspect", "typing", "collections", "functools", "os", "sys", "re", "gzip", "io"):
             return builtins.__import__(name, globals, locals, fromlist, level)
         return _Stub(name)
 
